@@ -15,6 +15,7 @@ use crate::worker::W;
 pub fn dispatch(w: &mut W) {
     match w.prop.as_str() {
         "C01" => c01::run(w),
+        "C01-small" => c01::run_small(w),
         "C02" => c02::run(w),
         "C03" => fixed::run_c03(w),
         "C08" => fixed::run_c08(w),
